@@ -240,6 +240,8 @@ func init() {
 		})
 		// leg Bm (c03bm.go): the Boyer-Moore prefix against its model and a naive search
 		c03RegisterBm(c, 1)
+		// leg Sf (strfilter.go): the raw-string prefix filters (a quarter of C02's cases)
+		sfRegister(c, 4)
 		// leg L (c04loops.go): landmark chain / literal after the leading loop (a fifth of C04's cases)
 		c04RegisterLoops(c, 5)
 	})
